@@ -848,5 +848,17 @@ def replay(spec, acc):
         acc.case(case['prog_text'], True)
         if real['status'].startswith('host-exception'):
             acc.violation('host-exception-escaped', real['status'], case)
+    elif 'text' in case and ('limit' in case or 'debug' in case):
+        # a directed fatal-statement-error text: any outcome other than the documented error type is reported
+        opts = {'globals': {}, 'maxStatements': case['limit']} if 'limit' in case else {'globals': {}, 'logFn': (lambda m: None), 'debug': case['debug'], 'maxStatements': 0 if 'rec(' in case['text'] else 10000}
+        acc.case(case['text'], True)
+        try:
+            res = bare_script.execute_script(bare_script.parse_script(case['text']), opts)
+            if 'rec(' not in case['text']:
+                acc.violation('fatal-error-swallowed', f'result {res!r:.200}', case)
+        except rt_err:
+            pass
+        except Exception as exc:  # pylint: disable=broad-except
+            acc.violation('host-exception-escaped', f'{type(exc).__name__}: {exc}', case)
     else:
         acc.note_inconclusive('finding-level replay entry')
